@@ -34,12 +34,17 @@ VFILES = ["SelfCal/WeightModel.v", "SelfCal/WeightProofs.v", "SelfCal/LsqModel.v
 
 SIG_NF = [1e-6, 1e-4, 1e-2]
 SIG_TR = [None, 0.0, 1e-5, 1e-3, 1e-1]
-GRIDS = ["one", "two", "own", "cal"]
+GRIDS = ["one", "two", "own", "cal", "two_off", "own_off"]
 
 
 def merror_cmd(grid, freqs, snf, strk, rng=None, vary=False):
     """set_m_error command for a noise grid; returns (command, expected (nf, tr) per calibration
-    frequency or None when the values between knots are not pinned down)"""
+    frequency).  With vary the two vectors are linear in frequency with different slopes (sigma_nf
+    rising, sigma_tr falling): any interpolation "through the given points" reproduces linear data
+    linearly, so the expectation is exact at every calibration frequency, on or off the grid.
+    Grids: one point; the calibration grid (NULL frequency vector); two / own: knots include the
+    calibration frequencies; two_off / own_off: no calibration frequency (except possibly the
+    ends) is a knot."""
     nfq = len(freqs)
     if grid == "one":
         cmd = "merror 1 - %s %s" % (G.fnum(snf), "-" if strk is None else G.fnum(strk))
@@ -50,25 +55,28 @@ def merror_cmd(grid, freqs, snf, strk, rng=None, vary=False):
         cmd = "merror %d - %s %s" % (nfq, " ".join(G.fnum(x) for x in nfv),
                                      "-" if trv is None else " ".join(G.fnum(x) for x in trv))
         return cmd, [(nfv[i], trv[i] if trv else 0.0) for i in range(nfq)]
+    lo, hi = freqs[0], freqs[-1]
     if grid == "two":
-        gf = [freqs[0], freqs[-1]] if nfq > 1 else [freqs[0] * 0.5, freqs[0] * 1.5]
-    else:
-        # own grid: the calibration frequencies are knots, with extra knots in between / outside
-        gf = sorted(set([freqs[0] * 0.75] + list(freqs) + [0.5 * (freqs[i] + freqs[i + 1]) for i in range(nfq - 1)]
-                        + [freqs[-1] * 1.25]))
-    nfv = [snf * (1 + (0.5 * i if vary else 0)) for i in range(len(gf))]
-    trv = None if strk is None else [strk * (1 + (0.25 * i if vary else 0)) for i in range(len(gf))]
+        gf = [lo, hi] if nfq > 1 else [lo * 0.5, lo * 1.5]
+    elif grid == "two_off":
+        gf = [lo * 0.9, hi * 1.1]
+    elif grid == "own":
+        gf = sorted(set([lo * 0.75] + list(freqs) + [0.5 * (freqs[i] + freqs[i + 1]) for i in range(nfq - 1)] + [hi * 1.25]))
+    else:   # own_off: 3 .. 6 knots, irregular, none of them an interior calibration frequency
+        k = (rng.choice([3, 4, 6]) if rng else 4)
+        gf = [lo * 0.8 + (hi * 1.2 - lo * 0.8) * (i / float(k - 1)) ** 1.3 for i in range(k)]
+    span = gf[-1] - gf[0]
+
+    def nf_of(f):
+        return snf * (1.0 + (0.5 * (f - gf[0]) / span if vary else 0.0))
+
+    def tr_of(f):
+        return (strk or 0.0) * (2.0 - (0.8 * (f - gf[0]) / span if vary else 0.0))
+    nfv = [nf_of(f) for f in gf]
+    trv = None if strk is None else [tr_of(f) for f in gf]
     cmd = "merror %d %s %s %s" % (len(gf), " ".join(G.fnum(x) for x in gf), " ".join(G.fnum(x) for x in nfv),
                                   "-" if trv is None else " ".join(G.fnum(x) for x in trv))
-    exp = []
-    for f in freqs:
-        if f in gf:
-            i = gf.index(f)
-            exp.append((nfv[i], trv[i] if trv else 0.0))
-        elif not vary:
-            exp.append((snf, strk or 0.0))          # constant data: the spline is that constant
-        else:
-            exp.append(None)
+    exp = [(nf_of(f), tr_of(f) if strk is not None else 0.0) for f in freqs]
     return cmd, exp
 
 
@@ -88,9 +96,9 @@ def part_exact(ctx, rec, exe):
     scs = []
     for i, (typ, n, snf, strk, grid) in enumerate(cases):
         rng = random.Random(ctx.rng.getrandbits(48))
-        nfq = rng.choice([1, 2, 3]) if grid != "two" else rng.choice([1, 2])
+        nfq = rng.choice([1, 2, 3]) if grid not in ("two", "two_off", "own_off") else rng.choice([2, 3, 4])
         sc = G.build_general(rng, "ex_%d_%s_%d" % (i, typ, n), typ, n, nfq, 0, 0, excess=rng.choice([1, 3, 6]))
-        vary = rng.random() < 0.5
+        vary = rng.random() < 0.5 or grid in ("two_off", "own_off")
         cmd, exp = merror_cmd(grid, sc.freqs, snf, strk, rng, vary)
         sc.meta.update({"grid": grid, "sigma_nf": snf, "sigma_tr": strk, "vary": vary, "merror": cmd, "expected_vector": exp})
         dut = [G.rand_dut(rng, n) for _ in range(nfq)]
@@ -167,9 +175,10 @@ def part_exact(ctx, rec, exe):
                 if expd is None:
                     continue
                 got = mv[0][f]
-                if abs(got[0] - expd[0]) > 1e-9 * expd[0] or abs(got[1] - expd[1]) > 1e-9 * max(expd[1], 1e-300) + (0 if expd[1] else 1e-300):
-                    rec.add({"kind": "noise_grid", "grid": m["grid"], "points": len(m["merror"].split()) and m["grid"]},
-                            "noise model at calibration frequency %g is (%g, %g), given (%g, %g) at that point (grid %s)"
+                if abs(got[0] - expd[0]) > 1e-8 * expd[0] or abs(got[1] - expd[1]) > 1e-8 * max(expd[1], expd[0] * 1e-6):
+                    rec.add({"kind": "noise_grid", "grid": m["grid"]},
+                            "stored noise model at calibration frequency %g is (sigma_nf %.9g, sigma_tr %.9g); the given vectors "
+                            "(linear in frequency, through the given points) give (%.9g, %.9g) there (grid %s)"
                             % (sc.freqs[f], got[0], got[1], expd[0], expd[1], m["grid"]), sc, r)
                     break
             nchecked += 1
@@ -404,6 +413,22 @@ def part_directed(ctx, rec, exe):
         faulted = bool(c and c.get("function") in ("save_v_matrices", "restore_v_matrices"))
         guard = (not faulted) if guard is None else (guard and not faulted)
         check_common(rec, sc, r, "correlated unknown, no over-determined system, m_error on")
+    # an inconsistent standard at the LAST frequency only: the solve must fail (-1, EDOM)
+    for typ in ("E12", "UE14", "T8", "U16"):
+        for n in ((2, 3) if typ in ("E12", "UE14") else (2,)):
+            r2 = random.Random(rng.getrandbits(48))
+            snf, strk = 1e-3, 1e-2
+            sc = G.build_general(r2, "late_%s_%d" % (typ, n), typ, n, 3, 0, 0, excess=5,
+                                 outlier=(1, 100.0, snf, strk, (2,)))
+            sc.cmd("merror 1 - %s %s" % (G.fnum(snf), G.fnum(strk)))
+            sc.solve()
+            r = G.run_one(ctx, exe, sc)
+            ctx.count(("late_outlier", typ, n))
+            s = check_common(rec, sc, r, "outlier standard at the last frequency, %s %dx%d" % (typ, n, n))
+            if s is not None and s["rc"] == 0:
+                rec.add({"kind": "outlier_accepted", "type": typ, "where": "last frequency"},
+                        "%s %dx%d: a standard off by 100 sigma at the last of three frequencies: vnacal_new_solve returned 0 "
+                        "(callbacks %d, p-values %s)" % (typ, n, n, s["cb"], s["pvalues"]), sc, r)
     ctx.extra["save_v_matrices_tests_the_vector"] = guard
     ctx.obligation("tie:save_v_matrices_form", guard is not None, "")
     # multi-system type with m_error: uninitialised terms of later systems (valgrind, plain build)
